@@ -43,6 +43,8 @@ CONSTANTS
     Groups,          \* table of group values: Groups[g] is a sequence of attributes; an attribute <<k, -g>> is a group
     CtxVals,         \* context contents explored by LogM: each a sequence of <<context key, value>> (value 0 = absent)
     CallArgs,        \* call-site attribute lists explored by LogM
+    FlagSets,        \* sequence of flag sets used as arguments of the flag calls (sets of flag names)
+    MaxSaved,        \* bound on outstanding SaveFlagsAndMod / SaveLevelAndSet scopes in the exhaustive model
     MaxList,         \* bound on the length of attribute / writer / context-key lists in the exhaustive model
     Acts             \* enabled action families (subset of AllActs)
 
@@ -51,7 +53,13 @@ VARIABLE st
 STDOUT == -1
 STDERR == -2
 
-AllActs == {"Set", "With", "New", "NewDetached", "PkgSetLevel", "SetDefault", "LogF", "LogA", "LogM", "SetAttrsR"}
+AllActs == {"Set", "With", "New", "NewDetached", "PkgSetLevel", "SetDefault", "LogF", "LogA", "LogM", "SetAttrsR",
+            "Flags", "PkgLevel"}
+
+\* the global flag set (flags.go); StdFlags = LstdFlags.  The harness starts every behaviour from
+\* LstdFlags | LnoInterrupt so that Panic/Fatal probes return.
+StdFlags == {"time", "micro", "localTime", "lineno", "caller", "attrs", "privacypath", "privacyrx"}
+InitFlags == StdFlags \cup {"noInterrupt"}
 
 -----------------------------------------------------------------------------
 (* Per-logger configuration *)
@@ -66,6 +74,7 @@ InitState ==
     [n |-> 1, parent |-> <<0>>, name |-> <<"">>,
      cfg |-> <<DefaultCfg(FALSE, TRUE, InitLevel)>>,
      dbg |-> FALSE, deflvl |-> InitLevel, deflog |-> 1, attrsR |-> FALSE,
+     flags |-> InitFlags, savedf |-> <<>>, savedl |-> <<>>,
      treat |-> InitTreat, errdev |-> InitErrDev]
 
 Live(s) == 1..s.n
@@ -166,6 +175,17 @@ Guard(s, e) ==
       [] e.op = "SetDefault" -> e.l \in Live(s)
       [] e.op = "LogM" -> e.l \in Live(s)          \* a record with context CtxVals[e.a] and call attributes CallArgs[e.b]
       [] e.op = "SetAttrsR" -> TRUE                \* the inherit-attributes flag (LattrsR) on (e.a = 1) / off
+      \* global flags: e.k in SetFlags AddFlags RemoveFlags ResetFlags SaveFlagsAndMod(add e.a, remove e.b)
+      \* RestoreFlags (call the e.a-th restore function obtained so far; any of them, any number of times)
+      [] e.op = "Flags" -> CASE e.k \in {"SetFlags", "AddFlags", "RemoveFlags"} -> e.a \in DOMAIN FlagSets
+                             [] e.k = "ResetFlags" -> TRUE
+                             [] e.k = "SaveFlagsAndMod" -> e.a \in DOMAIN FlagSets /\ e.b \in DOMAIN FlagSets
+                             [] e.k = "RestoreFlags" -> e.a \in DOMAIN s.savedf
+                             [] OTHER -> FALSE
+      \* package level: ResetLevel, Reset, SaveLevelAndSet(e.a), RestoreLevel (e.a-th restore function)
+      [] e.op = "PkgLevel" -> CASE e.k \in {"ResetLevel", "Reset", "SaveLevelAndSet"} -> TRUE
+                                [] e.k = "RestoreLevel" -> e.a \in DOMAIN s.savedl
+                                [] OTHER -> FALSE
       [] e.op = "LogA" -> e.l \in Live(s)          \* a call through entry point e.k, severity e.a, message class e.mc, arguments e.args
       [] e.op = "LogF" -> e.l \in Live(s)          \* a record of severity e.a under fault assignment FailSets[e.b]
       [] OTHER -> FALSE
@@ -196,7 +216,23 @@ Step(s, e) ==
       [] e.op = "SetDefault" -> {[s EXCEPT !.deflog = e.l]}
       [] e.op = "LogA" -> {s}
       [] e.op = "LogM" -> {s}
-      [] e.op = "SetAttrsR" -> {[s EXCEPT !.attrsR = (e.a = 1)]}
+      [] e.op = "SetAttrsR" -> {[s EXCEPT !.attrsR = (e.a = 1),
+                                           !.flags = IF e.a = 1 THEN s.flags \cup {"attrsR"} ELSE s.flags \ {"attrsR"}]}
+      [] e.op = "Flags" ->
+           LET nf == CASE e.k = "SetFlags" -> FlagSets[e.a]
+                       [] e.k = "AddFlags" -> s.flags \cup FlagSets[e.a]
+                       [] e.k = "RemoveFlags" -> s.flags \ FlagSets[e.a]
+                       [] e.k = "ResetFlags" -> StdFlags
+                       [] e.k = "SaveFlagsAndMod" -> (s.flags \cup FlagSets[e.a]) \ FlagSets[e.b]
+                       [] e.k = "RestoreFlags" -> s.savedf[e.a]
+           IN {[s EXCEPT !.flags = nf, !.attrsR = ("attrsR" \in nf),
+                         !.savedf = IF e.k = "SaveFlagsAndMod" THEN Append(s.savedf, s.flags) ELSE s.savedf]}
+      [] e.op = "PkgLevel" ->
+           LET SetTo(t, v) == [t EXCEPT !.deflvl = v, !.cfg[t.deflog].level = v, !.dbg = t.dbg \/ v = Debug]
+           IN CASE e.k = "ResetLevel" -> {SetTo(s, Warn)}
+                [] e.k = "Reset" -> {[SetTo(s, Warn) EXCEPT !.flags = StdFlags, !.attrsR = FALSE]}
+                [] e.k = "SaveLevelAndSet" -> {[SetTo(s, e.a) EXCEPT !.savedl = Append(s.savedl, s.deflvl)]}
+                [] e.k = "RestoreLevel" -> {SetTo(s, s.savedl[e.a])}
       [] e.op = "LogF" -> {s}                        \* logging never changes the configuration; no fault state exists
 
 \* the logger a call returns (0: nothing / not a logger)
@@ -335,6 +371,19 @@ SetDefault(l) == "SetDefault" \in Acts /\ Do("SetDefault", l, "", 0, 0)
 LogF(l, r, fi) == "LogF" \in Acts /\ Do("LogF", l, "", r, fi)
 LogM(l, ci, ai) == "LogM" \in Acts /\ Do("LogM", l, "", ci, ai)
 SetAttrsR(b) == "SetAttrsR" \in Acts /\ b \in {0, 1} /\ Do("SetAttrsR", 0, "", b, 0)
+FlagKinds == {"SetFlags", "AddFlags", "RemoveFlags", "ResetFlags", "SaveFlagsAndMod", "RestoreFlags"}
+Flags(k, a, b) ==
+    /\ "Flags" \in Acts
+    /\ (k \in {"SetFlags", "AddFlags", "RemoveFlags", "ResetFlags", "RestoreFlags"} => b = 0)
+    /\ (k = "ResetFlags" => a = 0)
+    /\ (k = "SaveFlagsAndMod" => Len(st.savedf) < MaxSaved)
+    /\ Do("Flags", 0, k, a, b)
+PkgLevelKinds == {"ResetLevel", "Reset", "SaveLevelAndSet", "RestoreLevel"}
+PkgLevel(k, a) ==
+    /\ "PkgLevel" \in Acts
+    /\ (k \in {"ResetLevel", "Reset"} => a = 0)
+    /\ (k = "SaveLevelAndSet" => Len(st.savedl) < MaxSaved /\ "Level" \in DOMAIN SetterArgs /\ <<a, 0>> \in SetterArgs["Level"])
+    /\ Do("PkgLevel", 0, k, a, 0)
 \* message classes are varied with an empty argument list, argument lists with a plain message
 LogA(l, ep, r, mc, args) ==
     /\ "LogA" \in Acts /\ l \in Live(st) /\ (mc = "plain" \/ args = <<>>)
@@ -353,6 +402,8 @@ Next ==
     \/ \E l \in 1..MaxLoggers, r \in LogSevs, fi \in DOMAIN FailSets : LogF(l, r, fi)
     \/ \E l \in 1..MaxLoggers, ci \in DOMAIN CtxVals, ai \in DOMAIN CallArgs : LogM(l, ci, ai)
     \/ \E b \in {0, 1} : SetAttrsR(b)
+    \/ \E k \in FlagKinds, a \in 0..Len(FlagSets), b \in 0..Len(FlagSets) : Flags(k, a, b)
+    \/ \E k \in PkgLevelKinds, a \in ArgA \cup 0..MaxSaved : PkgLevel(k, a)
     \/ \E l \in 1..MaxLoggers, ep \in EPs, r \in LogSevs, mc \in MsgClasses, args \in ArgLists : LogA(l, ep, r, mc, args)
 
 Init == st = InitState
@@ -396,6 +447,14 @@ DbgSticky == [][st.dbg => st'.dbg]_st
 GateAgrees ==
     \A l \in Live(st) : \A r \in (Builtin \cup DOMAIN st.treat \cup {13, 15, -8}) :
         Admit(st.cfg[l].level, r, st.dbg, st.treat) = EnabledMech(st.cfg[l].level, r, st.dbg, st.treat)
+
+\* beyond the listed properties: the flag algebra
+FlagsOK ==
+    /\ st.attrsR = ("attrsR" \in st.flags)
+    /\ Len(st.savedf) <= MaxSaved /\ Len(st.savedl) <= MaxSaved
+\* a restore function re-installs exactly the value that was current when its scope was opened
+RestoreExact ==
+    [][\A x \in DOMAIN st.savedf : x \in DOMAIN st'.savedf /\ st'.savedf[x] = st.savedf[x]]_st
 
 \* C07 at design level: what is printed has unique, ascending keys at every level, every source key
 \* appears, and the value printed for a top-level scalar key is its last occurrence in source order
